@@ -121,9 +121,13 @@ theorem C05_no_early_resolution (s s' : St) (a : Act) (f : Nat) (h : step s a = 
     split at h
     · split at h
       · split at h
+        · cases h; exact absurd h1 h0
+        · split at h
+          · cases h
+          · cases h; exact absurd h1 h0
+      · split at h
         · cases h
         · cases h; exact absurd h1 h0
-      · cases h; exact absurd h1 h0
     · cases h
   | tick t => simp only [step] at h; split at h <;> cases h; exact absurd h1 h0
 
